@@ -273,10 +273,26 @@ def _worker_fuzz(args: T.Tuple[int, int, int]) -> T.List[str]:
 def judge(chk: Check, cases: T.List[T.Dict[str, T.Any]], label: str) -> None:
     """Validate recorded executions against the spec with TLC (TraceTAP)."""
     by_id = {c['id']: c for c in cases}
-    for part_no, part in enumerate(common.chunks(cases, 150000)):
+    # batches are bounded by the size of the JSON text (every TLC worker parses the whole file; a 124 MB batch of
+    # long random streams made the JSON module fail under memory pressure), not only by the number of cases
+    batches: T.List[T.Tuple[T.List[T.Dict[str, T.Any]], str]] = []
+    cur: T.List[T.Dict[str, T.Any]] = []
+    cur_txt: T.List[str] = []
+    cur_size = 0
+    for c in cases:
+        t = json.dumps({k: c[k] for k in ('id', 's', 'ev', 'exit', 'cls')})
+        if cur and (cur_size + len(t) > 24_000_000 or len(cur) >= 150000):
+            batches.append((cur, '[' + ','.join(cur_txt) + ']'))
+            cur, cur_txt, cur_size = [], [], 0
+        cur.append(c)
+        cur_txt.append(t)
+        cur_size += len(t) + 1
+    if cur:
+        batches.append((cur, '[' + ','.join(cur_txt) + ']'))
+    for part_no, (part, text) in enumerate(batches):
         with scratch('c18-') as d:
             tf = d / 'cases.json'
-            tf.write_text(json.dumps([{k: c[k] for k in ('id', 's', 'ev', 'exit', 'cls')} for c in part]))
+            tf.write_text(text)
             res = run_tlc(SPECS / 'tap', 'TraceTAP', env={'TRACE_FILE': str(tf)}, timeout=3600, heap='8g')
             bad = res.json_lines()
             if not res.clean:
